@@ -158,7 +158,7 @@ def plan(tier, seed):
 def run_shard(shard, tier, seed, rec):
     H.install_work_guard()
     i = shard["i"]
-    n = {"quick": 16, "thorough": 700}[tier]
+    n = {"quick": 40, "thorough": 700}[tier]
     drivers = [["h5"], ["ih5"], ["h5"], ["ih5mf"]][i % 4]
     strat = C.chistories(8, 24 if tier == "quick" else 50).map(lambda h: dict(history=h, drivers=drivers))
     hyp.search(strat, lambda c: run_case(c, rec), rec, seed=seed * 1000 + i, max_examples=n,
